@@ -406,4 +406,418 @@ Section Univ.
     - intros s [[k1 b1] w1] [[k2 b2] w2] Hs H1 H2. unfold app1. simpl. apply alloc_add_comm; [apply Hs|exact H1|exact H2].
     - apply aeq_refl, (aeq_wf_l _ _ Ha).
   Qed.
+
+  (* ------------------------------------------------------------ deleting a pile *)
+  Lemma aeq_lookups a a' : awf a -> awf a' -> (forall k, alloc_get a k = alloc_get a' k) -> aeq a a'.
+  Proof. intros H1 H2 H3. split; [exact H1|]. split; [exact H2|]. intros k. rewrite H3. apply alook_refl. Qed.
+
+  Lemma alloc_get_del a k k' : alloc_get (alloc_del a k) k' = if okey_eqb k' k then None else alloc_get a k'.
+  Proof.
+    unfold alloc_del. induction a as [|[k0 p0] a IH]; simpl; [destruct (okey_eqb k' k); reflexivity|].
+    destruct (okey_eqb k k0) eqn:E; simpl.
+    - apply okey_eqb_eq in E. subst k0. rewrite IH. destruct (okey_eqb k' k); reflexivity.
+    - rewrite IH. destruct (okey_eqb k' k0) eqn:E2; [|reflexivity].
+      apply okey_eqb_eq in E2. subst k0. destruct (okey_eqb k' k) eqn:E3; [|reflexivity].
+      apply okey_eqb_eq in E3. subst k'. rewrite okey_eqb_refl in E. discriminate.
+  Qed.
+  Lemma alloc_del_wf a k : awf a -> awf (alloc_del a k).
+  Proof.
+    intros [Hn Hf]. unfold alloc_del, akeys in *. split.
+    - clear Hf. induction a as [|[k0 p0] a IH]; simpl; [constructor|]. inversion Hn as [|? ? Hk Hn']; subst.
+      destruct (negb (okey_eqb k k0)); simpl; [|apply IH, Hn']. constructor; [|apply IH, Hn'].
+      intros Hi. apply Hk. apply in_map_iff in Hi. destruct Hi as (x & Hx & Hi). apply filter_In in Hi.
+      apply in_map_iff. exists x. tauto.
+    - apply Forall_forall. intros x Hx. apply filter_In in Hx. rewrite Forall_forall in Hf. apply Hf, Hx.
+  Qed.
+  Lemma alloc_del_resp a a' k : aeq a a' -> aeq (alloc_del a k) (alloc_del a' k).
+  Proof.
+    intros (H1 & H2 & H3). split; [apply alloc_del_wf, H1|]. split; [apply alloc_del_wf, H2|].
+    intros k'. rewrite !alloc_get_del. destruct (okey_eqb k' k); [exact I|apply H3].
+  Qed.
+  Lemma alloc_del_comm a k1 k2 : awf a -> aeq (alloc_del (alloc_del a k1) k2) (alloc_del (alloc_del a k2) k1).
+  Proof.
+    intros Hw. apply aeq_lookups; [apply alloc_del_wf, alloc_del_wf, Hw|apply alloc_del_wf, alloc_del_wf, Hw|].
+    intros k. rewrite !alloc_get_del. destruct (okey_eqb k k1), (okey_eqb k k2); reflexivity.
+  Qed.
+
+  Definition ikey (i : instr) : option C := fst (fst i).
+
+  Lemma adds_get_other l : forall a k, (forall i, In i l -> ikey i <> k) -> alloc_get (adds a l) k = alloc_get a k.
+  Proof.
+    unfold adds. induction l as [|i l IH]; intros a k Hk; simpl; [reflexivity|].
+    rewrite IH by (intros j Hj; apply Hk; right; exact Hj). unfold app1. rewrite alloc_get_add.
+    destruct (okey_eqb k (fst (fst i))) eqn:E; [|reflexivity]. apply okey_eqb_eq in E. exfalso. apply (Hk i (or_introl eq_refl)). symmetry. exact E.
+  Qed.
+
+  Lemma adds_refl_resp l a a' : Forall okI l -> aeq a a' -> aeq (adds a l) (adds a' l).
+  Proof.
+    intros Hok Ha. apply adds_perm_mod; [|exact Hok|exact Ha]. exists l. split; [apply Permutation_refl|].
+    clear. induction l; constructor; [split; reflexivity|assumption].
+  Qed.
+
+  Lemma adds_del_comm l k0 : forall a, (forall i, In i l -> ikey i <> k0) -> Forall okI l -> awf a ->
+    aeq (adds (alloc_del a k0) l) (alloc_del (adds a l) k0).
+  Proof.
+    induction l as [|i l IH]; intros a Hk Hok Hw.
+    - simpl. apply aeq_refl, alloc_del_wf, Hw.
+    - inversion Hok as [|? ? Hi Hok']; subst. change (adds (alloc_del a k0) (i :: l)) with (adds (app1 (alloc_del a k0) i) l).
+      change (adds a (i :: l)) with (adds (app1 a i) l).
+      eapply aeq_trans; [|apply IH; [intros j Hj; apply Hk; right; exact Hj|exact Hok'|apply alloc_add_wf; assumption]].
+      apply adds_refl_resp; [exact Hok'|]. unfold app1.
+      apply aeq_lookups; [apply alloc_add_wf, alloc_del_wf; assumption|apply alloc_del_wf, alloc_add_wf; assumption|].
+      intros k. rewrite alloc_get_add, !alloc_get_del, alloc_get_add.
+      assert (Hne : okey_eqb (fst (fst i)) k0 = false).
+      { apply not_true_iff_false. intros H. apply okey_eqb_eq in H. apply (Hk i (or_introl eq_refl)). exact H. }
+      rewrite Hne. destruct (okey_eqb k (fst (fst i))) eqn:E; [|reflexivity].
+      apply okey_eqb_eq in E. subst k. rewrite Hne. reflexivity.
+  Qed.
+
+  (* ------------------------------------------------------------ moving ballots = adding instruction lists *)
+  Definition mb_instrs (targets : list C) (b : ballot) (w : Q) : list instr :=
+    match targets with
+    | [] => [(None, b, w)]
+    | _ => map (fun t => (Some t, b, Qred (w / inject_Z (Z.of_nat (length targets))))) targets
+    end.
+
+  Lemma move_ballot_adds a targets b w : move_ballot a targets b w = adds a (mb_instrs targets b w).
+  Proof.
+    unfold move_ballot, mb_instrs, adds. destruct targets as [|t ts]; [reflexivity|].
+    generalize (Qred (w / inject_Z (Z.of_nat (length (t :: ts))))). intros share.
+    generalize (t :: ts). intros l. revert a. induction l as [|x l IH]; intros a; simpl; [reflexivity|]. apply IH.
+  Qed.
+
+  Definition pile_instrs (c : C) (cont : list C) (p : pile) : list instr :=
+    flat_map (fun bw : ballot * Q => mb_instrs (ranked_next (fst bw) c cont) (fst bw) (snd bw)) p.
+
+  Lemma inner_fold_adds c cont p : forall a,
+    fold_left (fun a (bw : ballot * Q) => move_ballot a (ranked_next (fst bw) c cont) (fst bw) (snd bw)) p a = adds a (pile_instrs c cont p).
+  Proof.
+    induction p as [|bw p IH]; intros a; simpl; [reflexivity|].
+    rewrite IH, move_ballot_adds. unfold adds. rewrite fold_left_app. reflexivity.
+  Qed.
+
+  Definition step (cont : list C) (a : alloc) (c : C) : alloc :=
+    alloc_del (adds a (pile_instrs c cont (odflt (alloc_get a (Some c))))) (Some c).
+
+  Lemma transfer_steps a elim :
+    transfer a elim = fold_left (step (filter (fun c => negb (cmem c elim)) (keys_some a))) (filter (fun c => cmem c elim) (keys_some a)) a.
+  Proof.
+    unfold transfer. generalize (filter (fun c => cmem c elim) (keys_some a)) as rem.
+    generalize (filter (fun c => negb (cmem c elim)) (keys_some a)) as cont. intros cont rem.
+    generalize a. induction rem as [|c rem IH]; intros a0; simpl; [reflexivity|].
+    rewrite IH. f_equal. unfold step. rewrite inner_fold_adds.
+    destruct (alloc_get a0 (Some c)); reflexivity.
+  Qed.
+
+  Lemma mb_instrs_key targets b w i : In i (mb_instrs targets b w) -> (ikey i = None \/ exists t, ikey i = Some t /\ In t targets) /\ snd (fst i) = b.
+  Proof.
+    unfold mb_instrs. destruct targets as [|t ts].
+    - intros [<-|[]]. split; [left; reflexivity|reflexivity].
+    - intros H. apply in_map_iff in H. destruct H as (x & <- & Hx). split; [right; exists x; split; [reflexivity|exact Hx]|reflexivity].
+  Qed.
+
+  Lemma pile_instrs_key c cont p i : In i (pile_instrs c cont p) ->
+    (ikey i = None \/ exists t, ikey i = Some t /\ In t cont) /\ In (snd (fst i)) (map fst p).
+  Proof.
+    unfold pile_instrs. intros H. apply in_flat_map in H. destruct H as ([b w] & Hin & H). simpl in H.
+    apply mb_instrs_key in H. destruct H as [H1 H2]. split.
+    - destruct H1 as [H1|(t & H1 & Ht)]; [left; exact H1|]. right. exists t. split; [exact H1|].
+      apply (ranked_next_allowed b c cont), Ht.
+    - rewrite H2. apply in_map_iff. exists (b, w). auto.
+  Qed.
+
+  Lemma pile_instrs_ok c cont p : pwf p -> Forall okI (pile_instrs c cont p).
+  Proof.
+    intros Hw. apply Forall_forall. intros i Hi. apply pile_instrs_key in Hi. unfold okI. apply (proj1 Hw), Hi.
+  Qed.
+
+  Lemma pile_instrs_notkey c cont p c0 : ~ In c0 cont -> forall i, In i (pile_instrs c cont p) -> ikey i <> Some c0.
+  Proof.
+    intros Hc i Hi. apply pile_instrs_key in Hi. destruct Hi as [[H|(t & H & Ht)] _]; rewrite H; [discriminate|].
+    intros [= ->]. tauto.
+  Qed.
+
+  Lemma step_wf cont a c : awf a -> awf (step cont a c).
+  Proof.
+    intros Hw. unfold step. apply alloc_del_wf, adds_wf; [|exact Hw]. apply pile_instrs_ok, odflt_wf, Hw.
+  Qed.
+
+  Lemma mb_instrs_rel targets b w w' : w == w' -> Forall2 RI (mb_instrs targets b w) (mb_instrs targets b w').
+  Proof.
+    intros Hw. unfold mb_instrs. destruct targets as [|t ts]; [constructor; [split; [reflexivity|exact Hw]|constructor]|].
+    assert (Hs : Qred (w / inject_Z (Z.of_nat (length (t :: ts)))) == Qred (w' / inject_Z (Z.of_nat (length (t :: ts))))).
+    { pose proof (Qred_correct (w / inject_Z (Z.of_nat (length (t :: ts))))) as E1.
+      pose proof (Qred_correct (w' / inject_Z (Z.of_nat (length (t :: ts))))) as E2. rewrite E1, E2, Hw. reflexivity. }
+    generalize dependent (Qred (w / inject_Z (Z.of_nat (length (t :: ts))))). intros s1.
+    generalize (Qred (w' / inject_Z (Z.of_nat (length (t :: ts))))). intros s2 Hs.
+    induction (t :: ts) as [|x l IH]; simpl; constructor; [split; [reflexivity|exact Hs]|exact IH].
+  Qed.
+
+  Lemma pile_instrs_rel c cont p p' : pwf p -> pwf p' -> plook p p' -> perm_mod instr RI (pile_instrs c cont p) (pile_instrs c cont p').
+  Proof.
+    intros Hw Hw' Hl. unfold pile_instrs. apply (perm_mod_flat_map wrel RI); [|apply plook_perm_mod; assumption].
+    intros [b w] [b' w'] [H1 H2]. simpl in *. subst b'. apply mb_instrs_rel, H2.
+  Qed.
+
+  Lemma step_resp cont a a' c : aeq a a' -> aeq (step cont a c) (step cont a' c).
+  Proof.
+    intros Ha. unfold step. apply alloc_del_resp. pose proof Ha as (H1 & H2 & H3).
+    apply adds_perm_mod; [|apply pile_instrs_ok, odflt_wf, H1|exact Ha].
+    apply pile_instrs_rel; [apply odflt_wf, H1|apply odflt_wf, H2|].
+    specialize (H3 (Some c)). destruct (alloc_get a (Some c)), (alloc_get a' (Some c)); simpl in *; try contradiction; [exact H3|apply plook_refl].
+  Qed.
+
+  Lemma step_get_other cont a c c2 : c2 <> c -> ~ In c2 cont -> alloc_get (step cont a c) (Some c2) = alloc_get a (Some c2).
+  Proof.
+    intros Hne Hc. unfold step. rewrite alloc_get_del.
+    assert (E : okey_eqb (Some c2) (Some c) = false) by (apply not_true_iff_false; rewrite okey_eqb_eq; congruence).
+    rewrite E. apply adds_get_other. apply pile_instrs_notkey, Hc.
+  Qed.
+
+  Lemma step_comm cont a c1 c2 : awf a -> ~ In c1 cont -> ~ In c2 cont ->
+    aeq (step cont (step cont a c1) c2) (step cont (step cont a c2) c1).
+  Proof.
+    intros Hw H1 H2. destruct (Pos.eq_dec c1 c2) as [->|Hne]; [apply aeq_refl, step_wf, step_wf, Hw|].
+    assert (Hhalf : forall x y, x <> y -> ~ In x cont -> ~ In y cont ->
+      aeq (step cont (step cont a x) y)
+          (alloc_del (alloc_del (adds a (pile_instrs x cont (odflt (alloc_get a (Some x))) ++ pile_instrs y cont (odflt (alloc_get a (Some y))))) (Some x)) (Some y))).
+    { intros x y Hxy Hx Hy. unfold step at 1. rewrite (step_get_other cont a x y) by (try congruence; assumption).
+      apply alloc_del_resp. unfold step.
+      set (Ix := pile_instrs x cont (odflt (alloc_get a (Some x)))). set (Iy := pile_instrs y cont (odflt (alloc_get a (Some y)))).
+      assert (Hox : Forall okI Ix) by (apply pile_instrs_ok, odflt_wf, Hw).
+      assert (Hoy : Forall okI Iy) by (apply pile_instrs_ok, odflt_wf, Hw).
+      unfold adds at 3. rewrite fold_left_app. fold (adds a Ix). fold (adds (adds a Ix) Iy).
+      apply adds_del_comm; [apply pile_instrs_notkey, Hx|exact Hoy|apply adds_wf; assumption]. }
+    eapply aeq_trans; [apply Hhalf; assumption|].
+    eapply aeq_trans; [|apply aeq_sym, Hhalf; [congruence|assumption|assumption]].
+    set (I1 := pile_instrs c1 cont (odflt (alloc_get a (Some c1)))). set (I2 := pile_instrs c2 cont (odflt (alloc_get a (Some c2)))).
+    assert (Ho1 : Forall okI I1) by (apply pile_instrs_ok, odflt_wf, Hw).
+    assert (Ho2 : Forall okI I2) by (apply pile_instrs_ok, odflt_wf, Hw).
+    eapply aeq_trans; [apply alloc_del_comm, adds_wf; [apply Forall_app; split; assumption|exact Hw]|].
+    apply alloc_del_resp, alloc_del_resp. apply adds_perm_mod; [|apply Forall_app; split; assumption|apply aeq_refl, Hw].
+    exists (I2 ++ I1). split; [apply Permutation_app_comm|].
+    clear. induction (I2 ++ I1); constructor; [split; reflexivity|assumption].
+  Qed.
+
+  (* ------------------------------------------------------------ transfer respects the dictionary view *)
+  Lemma aeq_keys a a' : aeq a a' -> forall k, In k (akeys a) <-> In k (akeys a').
+  Proof.
+    intros (_ & _ & H) k. specialize (H k).
+    destruct (alloc_get a k) eqn:E, (alloc_get a' k) eqn:E'; simpl in H; try contradiction.
+    - apply alloc_get_in in E, E'. split; intros _; unfold akeys.
+      + apply in_map_iff. exists (k, p0). auto.
+      + apply in_map_iff. exists (k, p). auto.
+    - apply alloc_get_none in E, E'. tauto.
+  Qed.
+  Lemma keys_some_in a c : In c (keys_some a) <-> In (Some c) (akeys a).
+  Proof.
+    unfold keys_some, akeys. induction a as [|[[k|] p] a IH]; simpl; [tauto| |].
+    - rewrite IH. split; [intros [->|H]; auto|intros [[= ->]|H]; auto].
+    - rewrite IH. split; [auto|intros [H|H]; [discriminate|exact H]].
+  Qed.
+  Lemma keys_some_nodup a : NoDup (akeys a) -> NoDup (keys_some a).
+  Proof.
+    unfold akeys. induction a as [|[[k|] p] a IH]; simpl; intros H; [constructor| |].
+    - inversion H as [|? ? Hk Hn]; subst. constructor; [|apply IH, Hn]. intros Hi. apply Hk. apply keys_some_in in Hi. exact Hi.
+    - inversion H; subst. apply IH. assumption.
+  Qed.
+  Lemma keys_some_perm a a' : aeq a a' -> Permutation (keys_some a) (keys_some a').
+  Proof.
+    intros Ha. apply NoDup_Permutation; [apply keys_some_nodup, Ha|apply keys_some_nodup, Ha|].
+    intros c. rewrite !keys_some_in. apply aeq_keys, Ha.
+  Qed.
+
+  Lemma next_after_ext rest al al' : (forall c, cmem c al = cmem c al') -> next_after rest al = next_after rest al'.
+  Proof.
+    intros H. induction rest as [|[c|l] t IH]; simpl; [reflexivity| |].
+    - rewrite H, IH. reflexivity.
+    - rewrite (filter_ext (fun c => cmem c al) (fun c => cmem c al') H), IH. reflexivity.
+  Qed.
+  Lemma ranked_next_ext v c al al' : (forall c, cmem c al = cmem c al') -> ranked_next v c al = ranked_next v c al'.
+  Proof.
+    intros H. induction v as [|[x|l] t IH]; simpl; [reflexivity| |]; rewrite IH, (next_after_ext t al al' H); reflexivity.
+  Qed.
+  Lemma step_ext cont cont' a c : (forall x, cmem x cont = cmem x cont') -> step cont a c = step cont' a c.
+  Proof.
+    intros H. unfold step, pile_instrs. f_equal. f_equal. apply flat_map_ext. intros bw.
+    rewrite (ranked_next_ext _ c cont cont' H). reflexivity.
+  Qed.
+
+  Lemma transfer_wf a elim : awf a -> awf (transfer a elim).
+  Proof.
+    intros Hw. rewrite transfer_steps. generalize (filter (fun c => cmem c elim) (keys_some a)). intros rem.
+    generalize (filter (fun c : C => negb (cmem c elim)) (keys_some a)). intros cont.
+    revert a Hw. induction rem as [|c rem IH]; intros a0 Hw; simpl; [exact Hw|]. apply IH, step_wf, Hw.
+  Qed.
+
+  Theorem transfer_resp a a' elim elim' : aeq a a' -> (forall c, cmem c elim = cmem c elim') ->
+    aeq (transfer a elim) (transfer a' elim').
+  Proof.
+    intros Ha He. rewrite !transfer_steps.
+    pose proof (keys_some_perm a a' Ha) as Hk.
+    set (cont := filter (fun c => negb (cmem c elim)) (keys_some a)).
+    set (cont' := filter (fun c => negb (cmem c elim')) (keys_some a')).
+    set (rem := filter (fun c => cmem c elim) (keys_some a)).
+    set (rem' := filter (fun c => cmem c elim') (keys_some a')).
+    assert (Hc : forall x, cmem x cont' = cmem x cont).
+    { intros x. apply cmem_perm. unfold cont, cont'.
+      rewrite (filter_ext (fun c => negb (cmem c elim')) (fun c => negb (cmem c elim))) by (intros c; rewrite He; reflexivity).
+      apply Permutation_sym, perm_filter, Hk. }
+    assert (Hr : Permutation rem rem').
+    { unfold rem, rem'. rewrite (filter_ext (fun c => cmem c elim') (fun c => cmem c elim)) by (intros c; rewrite He; reflexivity).
+      apply perm_filter, Hk. }
+    assert (Hfold : forall l a0, fold_left (step cont') l a0 = fold_left (step cont) l a0).
+    { induction l as [|c l IH]; intros a0; simpl; [reflexivity|]. rewrite IH, (step_ext cont' cont a0 c Hc). reflexivity. }
+    rewrite Hfold.
+    apply (fold_perm_mod alloc C aeq eq (fun c => ~ In c cont) (step cont) aeq_trans).
+    - intros; reflexivity.
+    - intros s s' i i' Hs _ <-. apply step_resp, Hs.
+    - intros s i j Hs Hi Hj. apply step_comm; [apply Hs|exact Hi|exact Hj].
+    - exists rem'. split; [exact Hr|]. clear. induction rem'; constructor; auto.
+    - apply Forall_forall. intros c Hc0 Hin. unfold rem in Hc0. unfold cont in Hin.
+      apply filter_In in Hc0. apply filter_In in Hin. destruct Hc0 as [_ H1], Hin as [_ H2]. rewrite H1 in H2. discriminate.
+    - exact Ha.
+    - apply aeq_refl, Ha.
+  Qed.
+
+  (* ------------------------------------------------------------ subtracting quotas (Gregory) *)
+  Lemma pget_map_scale (g : Q -> Q) p b : pget (map (fun bw : ballot * Q => (fst bw, g (snd bw))) p) b = option_map g (pget p b).
+  Proof. induction p as [|[b0 w0] p IH]; simpl; [reflexivity|]. destruct (ballot_eqb b b0); [reflexivity|exact IH]. Qed.
+  Lemma pwf_map_scale (g : Q -> Q) p : pwf p -> pwf (map (fun bw : ballot * Q => (fst bw, g (snd bw))) p).
+  Proof. unfold pwf. rewrite map_map. simpl. tauto. Qed.
+
+  Definition orelp (R : pile -> pile -> Prop) (o o' : option pile) : Prop :=
+    match o, o' with Some x, Some y => R x y | None, None => True | _, _ => False end.
+
+  Lemma gregory_resp p p' amt : pwf p -> pwf p' -> plook p p' ->
+    orelp (fun q q' => pwf q /\ pwf q' /\ plook q q') (gregory_subtract p amt) (gregory_subtract p' amt).
+  Proof.
+    intros Hw Hw' Hl. unfold gregory_subtract. rewrite <- (pile_sum_plook p p' Hw Hw' Hl).
+    destruct (Qeq_bool (pile_sum p) 0); [exact I|]. destruct (Qle_bool (pile_sum p) amt); cbn [orelp].
+    - split; [apply pwf_nil|]. split; [apply pwf_nil|apply plook_refl].
+    - set (f := (pile_sum p - amt) / pile_sum p).
+      split; [apply (pwf_map_scale (fun w => Qred (w * f))), Hw|]. split; [apply (pwf_map_scale (fun w => Qred (w * f))), Hw'|].
+      intros b Hb. rewrite !(pget_map_scale (fun w => Qred (w * f))). specialize (Hl b Hb). destruct Hl as [|w w' Hww]; cbn [option_map]; constructor.
+      pose proof (Qred_correct (w * f)) as E1. pose proof (Qred_correct (w' * f)) as E2. rewrite E1, E2, Hww. reflexivity.
+  Qed.
+
+  Definition repl (a : alloc) (c : C) (p' : pile) : alloc :=
+    map (fun kp : option C * pile => if okey_eqb (Some c) (fst kp) then (fst kp, p') else kp) a.
+
+  Lemma alloc_get_repl a c p' k :
+    alloc_get (repl a c p') k = if okey_eqb k (Some c) then match alloc_get a k with Some _ => Some p' | None => None end else alloc_get a k.
+  Proof.
+    unfold repl. induction a as [|[k0 p0] a IH]; cbn -[okey_eqb]; [destruct (okey_eqb k (Some c)); reflexivity|].
+    destruct (okey_eqb (Some c) k0) eqn:E; cbn -[okey_eqb].
+    - apply okey_eqb_eq in E. subst k0. destruct (okey_eqb k (Some c)); [reflexivity|exact IH].
+    - destruct (okey_eqb k k0) eqn:E2; [|exact IH].
+      apply okey_eqb_eq in E2. subst k0. destruct (okey_eqb k (Some c)) eqn:E3; [|reflexivity].
+      apply okey_eqb_eq in E3. subst k. rewrite okey_eqb_refl in E. discriminate.
+  Qed.
+  Lemma repl_wf a c p' : awf a -> pwf p' -> awf (repl a c p').
+  Proof.
+    intros [Hn Hf] Hp. unfold repl, awf, akeys in *. split.
+    - rewrite map_map. rewrite (map_ext _ fst); [exact Hn|]. intros [k0 p0]. cbn -[okey_eqb]. destruct (okey_eqb (Some c) k0); reflexivity.
+    - apply Forall_forall. intros x Hx. apply in_map_iff in Hx. destruct Hx as ([k0 p0] & <- & Hin).
+      cbn -[okey_eqb]. destruct (okey_eqb (Some c) k0); simpl; [exact Hp|]. rewrite Forall_forall in Hf. exact (Hf _ Hin).
+  Qed.
+
+  Definition sub1 (a : alloc) (ca : C * Q) : option alloc :=
+    match alloc_get a (Some (fst ca)) with
+    | None => None
+    | Some p => match gregory_subtract p (snd ca) with None => None | Some p' => Some (repl a (fst ca) p') end
+    end.
+  Definition osub (o : option alloc) (ca : C * Q) : option alloc := match o with Some a => sub1 a ca | None => None end.
+
+  Lemma subtract_fold el : forall a, subtract a el = fold_left osub el (Some a).
+  Proof.
+    induction el as [|[c amt] t IH]; intros a; simpl; [reflexivity|].
+    unfold sub1. simpl. destruct (alloc_get a (Some c)) as [p|]; [|clear; induction t; simpl; auto].
+    destruct (gregory_subtract p amt) as [p'|]; [apply IH|clear; induction t; simpl; auto].
+  Qed.
+
+  Definition oaeq (o o' : option alloc) : Prop := match o, o' with Some a, Some a' => aeq a a' | None, None => True | _, _ => False end.
+  Lemma oaeq_trans o1 o2 o3 : oaeq o1 o2 -> oaeq o2 o3 -> oaeq o1 o3.
+  Proof. destruct o1, o2, o3; simpl; try tauto. apply aeq_trans. Qed.
+
+  Lemma sub1_resp a a' ca : aeq a a' -> oaeq (sub1 a ca) (sub1 a' ca).
+  Proof.
+    intros Ha. pose proof Ha as (H1 & H2 & H3). unfold sub1. pose proof (H3 (Some (fst ca))) as Hl.
+    destruct (alloc_get a (Some (fst ca))) as [p|] eqn:E, (alloc_get a' (Some (fst ca))) as [p'|] eqn:E'; simpl in Hl; try contradiction; [|exact I].
+    pose proof (alloc_get_wf _ _ _ H1 E) as Hw. pose proof (alloc_get_wf _ _ _ H2 E') as Hw'.
+    pose proof (gregory_resp p p' (snd ca) Hw Hw' Hl) as Hg.
+    destruct (gregory_subtract p (snd ca)) as [q|], (gregory_subtract p' (snd ca)) as [q'|]; simpl in Hg; try contradiction; [|exact I].
+    destruct Hg as (Hq & Hq' & Hqq). simpl. split; [apply repl_wf; assumption|]. split; [apply repl_wf; assumption|].
+    intros k. rewrite !alloc_get_repl. destruct (okey_eqb k (Some (fst ca))) eqn:Ek; [|apply H3].
+    apply okey_eqb_eq in Ek. subst k. rewrite E, E'. exact Hqq.
+  Qed.
+
+  Lemma sub1_comm a x y : awf a -> fst x <> fst y -> oaeq (osub (sub1 a x) y) (osub (sub1 a y) x).
+  Proof.
+    intros Hw Hne. destruct x as [c1 x1], y as [c2 x2]. simpl in Hne.
+    assert (E12 : okey_eqb (Some c2) (Some c1) = false) by (apply not_true_iff_false; rewrite okey_eqb_eq; congruence).
+    assert (E21 : okey_eqb (Some c1) (Some c2) = false) by (apply not_true_iff_false; rewrite okey_eqb_eq; congruence).
+    assert (F1 : forall q, alloc_get (repl a c1 q) (Some c2) = alloc_get a (Some c2)) by (intros q; rewrite alloc_get_repl, E12; reflexivity).
+    assert (F2 : forall q, alloc_get (repl a c2 q) (Some c1) = alloc_get a (Some c1)) by (intros q; rewrite alloc_get_repl, E21; reflexivity).
+    unfold osub, sub1. cbn [fst snd].
+    destruct (alloc_get a (Some c1)) as [p1|] eqn:G1; [destruct (gregory_subtract p1 x1) as [q1|] eqn:S1|];
+    (destruct (alloc_get a (Some c2)) as [p2|] eqn:G2; [destruct (gregory_subtract p2 x2) as [q2|] eqn:S2|]);
+    rewrite ?F1, ?F2, ?G1, ?G2, ?S1, ?S2; try exact I.
+    cbn [oaeq].
+    pose proof (alloc_get_wf _ _ _ Hw G1) as W1. pose proof (alloc_get_wf _ _ _ Hw G2) as W2.
+    pose proof (gregory_resp p1 p1 x1 W1 W1 (plook_refl p1)) as R1. rewrite S1 in R1. cbn [orelp] in R1.
+    pose proof (gregory_resp p2 p2 x2 W2 W2 (plook_refl p2)) as R2. rewrite S2 in R2. cbn [orelp] in R2.
+    apply aeq_lookups; [apply repl_wf; [apply repl_wf; tauto|tauto]|apply repl_wf; [apply repl_wf; tauto|tauto]|].
+    intros k. rewrite !alloc_get_repl.
+    destruct (okey_eqb k (Some c2)) eqn:K2, (okey_eqb k (Some c1)) eqn:K1; try reflexivity.
+    apply okey_eqb_eq in K2, K1. congruence.
+  Qed.
+
+  Theorem subtract_resp a a' el el' : aeq a a' -> Permutation el el' -> NoDup (map fst el) ->
+    oaeq (subtract a el) (subtract a' el').
+  Proof.
+    intros Ha Hp Hn. rewrite !subtract_fold.
+    apply (fold_perm_mod (option alloc) (C * Q) oaeq eq (fun i => In i el) osub oaeq_trans).
+    - intros; reflexivity.
+    - intros s s' i i' Hs _ <-. destruct s, s'; simpl in *; try contradiction; [apply sub1_resp, Hs|exact I].
+    - intros s i j Hs Hi Hj. destruct s as [s|]; [|exact I]. simpl in Hs.
+      destruct (Pos.eq_dec (fst i) (fst j)) as [E|E].
+      + assert (i = j).
+        { destruct i as [c x], j as [c' y]. simpl in E. subst c'. f_equal.
+          clear -Hn Hi Hj. induction el as [|[k u] t IH]; [destruct Hi|]. simpl in Hn. inversion Hn as [|? ? Hk Hn']; subst.
+          destruct Hi as [Hi|Hi], Hj as [Hj|Hj].
+          - congruence.
+          - injection Hi as -> ->. exfalso. apply Hk. apply in_map_iff. exists (c, y). auto.
+          - injection Hj as -> ->. exfalso. apply Hk. apply in_map_iff. exists (c, x). auto.
+          - apply IH; assumption. }
+        subst j. simpl.
+        pose proof (sub1_resp s s i Hs) as H1. destruct (sub1 s i) as [s1|]; [|exact I]. simpl in *. apply sub1_resp, H1.
+      + simpl. apply sub1_comm; [apply Hs|exact E].
+    - exists el'. split; [exact Hp|]. clear. induction el'; constructor; auto.
+    - apply Forall_forall. auto.
+    - exact Ha.
+    - simpl. apply aeq_refl, Ha.
+  Qed.
+
+  (* ------------------------------------------------------------ totals *)
+  Lemma totals_in a k t : NoDup (akeys a) -> (In (k, t) (totals a) <-> exists p, alloc_get a k = Some p /\ t = pile_sum p).
+  Proof.
+    intros Hn. unfold totals. rewrite in_map_iff. split.
+    - intros ([k0 p] & Heq & Hin). simpl in Heq. injection Heq as -> <-. exists p. split; [apply in_alloc_get; assumption|reflexivity].
+    - intros (p & Hg & ->). exists (k, p). split; [reflexivity|apply alloc_get_in, Hg].
+  Qed.
+
+  Theorem totals_perm a a' : aeq a a' -> Permutation (totals a) (totals a').
+  Proof.
+    intros (H1 & H2 & H3).
+    assert (Hnd : forall x, NoDup (akeys x) -> NoDup (totals x)).
+    { intros x Hx. eapply NoDup_map_inv with (f := fst). rewrite totals_keys. exact Hx. }
+    apply NoDup_Permutation; [apply Hnd, H1|apply Hnd, H2|].
+    intros [k t]. rewrite (totals_in a k t (proj1 H1)), (totals_in a' k t (proj1 H2)). specialize (H3 k).
+    split; intros (p & Hg & ->); rewrite Hg in H3.
+    - destruct (alloc_get a' k) as [p'|] eqn:E; simpl in H3; [|contradiction]. exists p'. split; [reflexivity|].
+      apply pile_sum_plook; [exact (alloc_get_wf a k p H1 Hg)|exact (alloc_get_wf a' k p' H2 E)|exact H3].
+    - destruct (alloc_get a k) as [p'|] eqn:E; simpl in H3; [|contradiction]. exists p'. split; [reflexivity|].
+      symmetry. apply pile_sum_plook; [exact (alloc_get_wf a k p' H1 E)|exact (alloc_get_wf a' k p H2 Hg)|exact H3].
+  Qed.
 End Univ.
